@@ -123,7 +123,8 @@ func (e *Engine) canonID(key string) int {
 	if id, ok := e.allocNames[key]; ok {
 		return id
 	}
-	id := len(e.allocNames) + 1
+	e.allocSeq++ // monotonic, so that the name table may be dropped (long single-path runs) without reusing ids
+	id := e.allocSeq
 	e.allocNames[key] = id
 	return id
 }
@@ -136,7 +137,8 @@ func (s *State) alloc(v Value) int {
 	id := e.canonID(fmt.Sprintf("obj|%s|%d", s.key(), s.subAlloc))
 	if _, exists := s.heap[id]; exists {
 		// same site reached twice on one path without a distinguishing visit count: fall back to a unique name
-		id = e.canonID(fmt.Sprintf("obj|%s|%d|dup%d", s.key(), s.subAlloc, len(s.allocLog)))
+		e.dupSeq++
+		id = e.canonID(fmt.Sprintf("obj|%s|%d|dup%d", s.key(), s.subAlloc, e.dupSeq))
 	}
 	s.heap[id] = v
 	s.allocLog = append(s.allocLog, id)
@@ -197,6 +199,8 @@ type Engine struct {
 	ufSeq       int
 	cuts        map[string]*ssa.Function
 	allocNames  map[string]int
+	allocSeq    int
+	dupSeq      int
 	rpoCache    map[*ssa.Function]map[*ssa.BasicBlock]int
 	joinFailWhy map[string]int
 	Params      map[string]int64
@@ -472,6 +476,22 @@ func (e *Engine) stepSafe(st *State) (forks []*State) {
 				forks = nil
 				return
 			}
+			if os.Getenv("VERIF_TRACE") != "" && len(st.frames) > 0 {
+				// engine bug or unsupported shape of values: say where the interpreted program was
+				fr := st.top()
+				if fr.ip < len(fr.block.Instrs) {
+					in := fr.block.Instrs[fr.ip]
+					fmt.Fprintf(os.Stderr, "engine panic while executing %s block %d: %s  at %s\n", fr.fn, fr.block.Index, in, e.L.Prog.Fset.Position(in.Pos()))
+					if os.Getenv("VERIF_TRACE") == "2" {
+						for v, x := range fr.regs {
+							fmt.Fprintf(os.Stderr, "   reg %s = %T %+v\n", v.Name(), x, x)
+							if p, ok := x.(PtrVal); ok && p.Obj != 0 {
+								fmt.Fprintf(os.Stderr, "       -> %+v\n", st.heap[p.Obj])
+							}
+						}
+					}
+				}
+			}
 			panic(r)
 		}
 	}()
@@ -528,12 +548,17 @@ func (e *Engine) constValue(c *ssa.Const) Value {
 	return nil
 }
 
+// globalBase: object ids of package-level variables start here; allocated objects are numbered from 1 by canonID.
+// (It used to be 1e6, which a path that allocates more than a million objects - a harness looping over 10^5 query
+// shapes - silently ran into: allocated objects then aliased globals.)
+const globalBase = 1 << 40
+
 // globals live at negative-free ids in every state's heap; they are created lazily and shared via gheap
 func (e *Engine) globalObj(st *State, g *ssa.Global) int {
 	if id, ok := e.globals[g]; ok {
 		return id
 	}
-	id := 1000000 + len(e.globals)
+	id := globalBase + len(e.globals)
 	e.globals[g] = id
 	if e.gheap == nil {
 		e.gheap = map[int]Value{}
